@@ -33,6 +33,12 @@ def cases(tier, seed, PROP):
             yield {'stratum': 'reassign-after-write', 'index': k, 'kind': 'rewrite'}
     if PROP == 'C07':
         yield {'stratum': 'kf-regression', 'index': 0, 'kind': 'kf-c07-across-sets'}
+        # identities changed between two writes (rename, another origin): references must follow
+        for k in range(60 if tier == 'quick' else 1500):
+            yield {'stratum': 'identity-change-then-rewrite', 'index': k, 'kind': 'rewrite'}
+    if PROP == 'C09':
+        for k in range(40 if tier == 'quick' else 800):
+            yield {'stratum': 'header-change-then-rewrite', 'index': k, 'kind': 'rewrite'}
     if PROP == 'C09':
         for k in range(60 if tier == 'quick' else 600):
             yield {'stratum': 'header', 'index': k, 'kind': 'header'}
@@ -46,6 +52,8 @@ def build_spec(case, PROP, r):
         return metagen.meta_spec(r, avoid=avoid)
     if k == 'rewrite':
         from vf.checks import c14
+        if PROP == 'C09':
+            return metagen.meta_spec(r, avoid=avoid, n_objects=r.choice([0, 3]), lf_count=r.choice([1, 2]), later_p=0.0)
         return c14.base_spec(r, avoid)
     if k == 'graph':
         return metagen.meta_spec(r, avoid=avoid, n_objects=r.choice([6, 12, 25]), n_origins=r.choice([1, 2, 3, 4]),
@@ -186,12 +194,48 @@ def run_case(case, PROP):
         from vf.checks import c14
         later_ops = []
         ops_now = list(sp['ops'])
-        for _ in range(r.choice([1, 2, 3])):
-            ph = c14.make_phase(r, r.choice(['assign-other-kind', 'assign-other-kind', 'assign-value', 'assign-units',
-                                            'change-channel-units']), ops_now, sp, {})
-            later_ops.extend(ph['ops'])
-            ops_now.extend(ph['ops'])
-        bump('reassign-after-write')
+        if PROP == 'C05':
+            for _ in range(r.choice([0, 1, 2, 3])):     # 0: plain second write, nothing re-assigned
+                ph = c14.make_phase(r, r.choice(['assign-other-kind', 'assign-other-kind', 'assign-value', 'assign-units',
+                                                'change-channel-units']), ops_now, sp, {})
+                later_ops.extend(ph['ops'])
+                ops_now.extend(ph['ops'])
+            bump('reassign-after-write')
+            if not later_ops:
+                bump('plain-second-write')
+        elif PROP == 'C07':
+            origins = [i for i, o in enumerate(ops_now) if o['op'] == 'origin']
+            objs_ = [(i, o) for i, o in enumerate(ops_now) if o['op'] in schema.TYPES and o['op'] != 'origin']
+            # prefer objects that something refers to
+            referred = set()
+            def walk(v):
+                if isinstance(v, dict):
+                    if '$ref' in v:
+                        referred.add(v['$ref'])
+                    for x in v.values():
+                        walk(x)
+                elif isinstance(v, list):
+                    for x in v:
+                        walk(x)
+            for _, o in objs_:
+                walk(o.get('attrs', {}))
+            pool = [i for i, o in objs_ if i in referred and o['op'] != 'channel'] or [i for i, o in objs_ if o['op'] not in ('channel', 'frame')]
+            for _ in range(r.choice([1, 2, 3])):
+                i = r.choice(pool)
+                if len(origins) >= 2 and r.random() < 0.5:
+                    later_ops.append({'op': 'setattr', 'target': i, 'field': 'origin_reference', 'value': {'$origin_of': r.choice(origins)}})
+                    bump('rewrite-origin-changed')
+                else:
+                    later_ops.append({'op': 'setattr', 'target': i, 'field': 'name', 'value': f'RENAMED-{i}-{len(later_ops)}'})
+                    bump('rewrite-renamed')
+            bump('identity-change-then-rewrite')
+        elif PROP == 'C09':
+            for l in range(len(sp.get('lfs', [{}]))):
+                if r.random() < 0.7:
+                    later_ops.append({'op': 'set_header', 'lf': l, 'field': 'header_id', 'value': gen.name(r, f'NEWHDR{l}', r.choice([8, 30, 65]), hc=True)})
+                if r.random() < 0.7:
+                    later_ops.append({'op': 'set_header', 'lf': l, 'field': 'sequence_number', 'value': r.choice([2, 77, 10 ** 10 - 1])})
+            bump('header-change-then-rewrite')
     contracts.attach_codec()
     contracts.drain()
     # naive date-times mean local time of the process: vary the zone (POSIX TZ strings, no tzdata needed)
